@@ -664,3 +664,4 @@ for _pid, (_rules, _text) in _ADD11.items():
     PROPS[_pid]["rules"] += _rules
     PROPS[_pid]["explanation"] += _text
 PROPS["C17"].setdefault("extra_scope_files", []).append("mptcore/event/dispatch_hash.c")      # gathers a fragmented command with mpt_message_read()
+PROPS["C01"].setdefault("extra_scope_files", []).append("mpt++/array.cpp")      # encode_array: the C++ buffer management around mpt_array_push()
